@@ -532,10 +532,45 @@ func Forall(bound []*Term, body *Term, pats ...*Term) *Term {
 		return body
 	}
 	// flatten directly nested universal quantifiers (the inner trigger covers all variables)
-	if body.Kind == KQuant && body.Op == "forall" && len(pats) == 0 {
-		return TC.mk(KQuant, "forall", SBool, body.Args, append(append([]*Term{}, bound...), body.Bound...), body.Pats)
+	if body.Kind == KQuant && body.Op == "forall" {
+		// union of the triggers must mention every bound variable
+		all := append(append([]*Term{}, pats...), body.Pats...)
+		vars := append(append([]*Term{}, bound...), body.Bound...)
+		covered := true
+		for _, v := range vars {
+			found := false
+			for _, p := range all {
+				if mentions(p, v) {
+					found = true
+				}
+			}
+			if !found {
+				covered = false
+			}
+		}
+		if covered && len(all) > 0 {
+			return TC.mk(KQuant, "forall", SBool, body.Args, vars, all)
+		}
+		if len(pats) == 0 && len(body.Pats) == 0 {
+			return TC.mk(KQuant, "forall", SBool, body.Args, vars, nil)
+		}
 	}
 	return TC.mk(KQuant, "forall", SBool, []*Term{body}, bound, pats)
+}
+
+func mentions(t, v *Term) bool {
+	if t == v {
+		return true
+	}
+	if !t.hasBV {
+		return false
+	}
+	for _, a := range t.Args {
+		if mentions(a, v) {
+			return true
+		}
+	}
+	return false
 }
 
 // GlobalAxioms are added to a query only when one of their function symbols occurs in it.
@@ -827,6 +862,7 @@ func (q *Query) Render(getModel bool, modelTerms []*Term) string {
 		roots = append(roots, negGoal)
 	}
 	roots = append(roots, relevantAxioms(roots)...)
+	roots = append(roots, orderAxioms(roots)...)
 	// theory instantiation for strings etc.
 	roots = append(roots, theoryAxioms(roots)...)
 	c := newCollector()
@@ -929,4 +965,38 @@ func termSize(ts []*Term) int {
 		rec(t)
 	}
 	return len(seen)
+}
+
+// orderAxioms: string order (strlt) is a strict total order; stated with triggers when the
+// query mentions strlt under a quantifier (ground uses get instances from theoryAxioms).
+func orderAxioms(roots []*Term) []*Term {
+	need := false
+	seen := map[*Term]bool{}
+	var rec func(t *Term)
+	rec = func(t *Term) {
+		if seen[t] || need {
+			return
+		}
+		seen[t] = true
+		if t.Kind == KApp && t.Op == "strlt" && t.hasBV {
+			need = true
+			return
+		}
+		for _, a := range t.Args {
+			rec(a)
+		}
+	}
+	for _, r := range roots {
+		rec(r)
+	}
+	if !need {
+		return nil
+	}
+	x := BVar("x", SStr)
+	y := BVar("y", SStr)
+	lt := App("strlt", SBool, x, y)
+	gt := App("strlt", SBool, y, x)
+	return []*Term{
+		Forall([]*Term{x, y}, And(Not(And(lt, gt)), Implies(Eq(x, y), Not(lt)), Implies(Ne(x, y), Or(lt, gt))), lt),
+	}
 }
